@@ -300,14 +300,17 @@ class LinCombDomain(RadiiDomain):
     name = 'Lc'
     inline = set()
 
-    def __init__(self, repo, scalar_facts=True, h_symmetric=False, abstract_at_sumsq=True, loop_defs=None, transfer_dots=False, norm_split=False):
+    def __init__(self, repo, scalar_facts=True, h_symmetric=False, abstract_at_sumsq=True, loop_defs=None, transfer_dots=False, norm_split=False, expand_shrink=False):
         RadiiDomain.__init__(self, repo)
+        self.expand_shrink = expand_shrink          # a dot product under a mask obtained by fixing one coordinate is written out over the parent mask (same trusted index-set fact, used as a rewrite)
         self.h_symmetric = h_symmetric              # H == H.T (asserted on entry of trsbox): x.(H y) == (H x).y, used to put dot products into one canonical form
         self.abstract_at_sumsq = abstract_at_sumsq  # forget the composition of a vector once its norm has been taken (keeps the norm proofs small)
         self.loop_defs = dict(loop_defs or {})      # (function, loop label) -> [(name, expression)]: an invariant of the form  name == expression, PROVED IN ANOTHER BUNDLE, used here as a definition at the loop head
         self.norm_split = norm_split                # a masked store v[free] = w[free] also records ||v'||^2 == ||v||^2 - ||v_free||^2 + ||w_free||^2 (orthogonal projection)
         self.transfer_dots = transfer_dots          # when a vector is abstracted to one atom, keep its dot products with the other live vectors (definitional equations)
         self.portfolio = bool(scalar_facts)        # nonlinear real queries: z3 and cvc5 side by side, the first definite answer wins (each is occasionally slow where the other is instant)
+        self.hermetic = bool(scalar_facts)         # ... and every solver run in a process of its own, with a small portfolio of z3 seeds (pyvc.solve.discharge_hermetic): in a pool worker the same query took 0.4 s or stayed unknown
+        self.slice_prefixes = ('sqrt!',) if scalar_facts else ()   # extra runs of the portfolio without the hypotheses about square roots the goal does not mention (a proof from fewer hypotheses is a proof)
         self.scalar_facts = scalar_facts      # False: dot products and square roots are unconstrained reals (enough for the linear identities, keeps the queries linear in PHI)
         self.field_shapes = {}
         self.assumptions = [
@@ -486,7 +489,12 @@ class LinCombDomain(RadiiDomain):
         if m is not None and m.sexpr() in SHRINK:
             m0, i, v = SHRINK[m.sexpr()]
             d0 = DOTR(m0, a0, b0)
-            self.fact(st, d == d0 - z3.If(z3.And(v != 0, FREE(m0, i)), ELEM(a0, i) * ELEM(b0, i), z3.RealVal(0)) + z3.If(z3.And(v == 0, z3.Not(FREE(m0, i))), ELEM(a0, i) * ELEM(b0, i), z3.RealVal(0)))
+            ex = d0 - z3.If(z3.And(v != 0, FREE(m0, i)), ELEM(a0, i) * ELEM(b0, i), z3.RealVal(0)) + z3.If(z3.And(v == 0, z3.Not(FREE(m0, i))), ELEM(a0, i) * ELEM(b0, i), z3.RealVal(0))
+            self.fact(st, d == ex)
+            if self.expand_shrink:
+                # the same trusted fact used as a rewrite: the product under the shrunk mask is written out over the parent mask, so that a goal about it is a polynomial in the parent's
+                # dot products (the solver no longer has to multiply the defining equation by a step length to use it)
+                return ex
         return d
 
     def as_lc(self, v, st=None):
